@@ -85,6 +85,17 @@ CLAIMED["C22"] = (
     "cli.ContainsString are uninterpreted pure functions.",
     "contract-based deductive verification (function-literal contract, send-site obligations + SMT)", "6/C22")
 
+CLAIMED["C25"] = (
+    "Proof that addTarget (a recursive function, verified against a recursive contract) only grows the kept set, adds its target and leaves "
+    "every newly added target with all its dependencies (resolved, declared-and-present, subrepo) in the set; that targetsToRemove keeps the kept "
+    "set dependency-closed at every loop head and at exit (so nothing a kept root transitively depends on is outside it), that the kept "
+    "sources cover every local source of every kept target (for every map iteration order), and that no proposed source file is a source of any "
+    "kept target. Kernel-only: WHICH roots are chosen (tests of kept targets via publicDependencies) and the gc_sibling redirection of the final "
+    "removal list are not covered by an obligation.",
+    COMMON_NOTE + "Dependencies(), DeclaredDependencies(), graph.Target(), AllLocalSourcePaths(), PackageMap() and publicDependencies are assumed "
+    "pure functions of the graph; sort.Sort/sort.Strings are permutations (assumed); nil-dereference obligations are switched off for targetsToRemove.",
+    "contract-based deductive verification (recursive contract, closure invariants over maps + SMT)", "6/C25")
+
 NOT_APPLICABLE = {
     "C05": "liveness / whole-run exit status under all schedules: no per-call contract expresses it (safety fragment is under C04)",
     "C30": "OS process groups, signals and wall-clock bounds; goroutines and select are outside the sequential contract model",
